@@ -348,6 +348,87 @@ class Facts:
             if not complete:
                 raise AnchorMissing("fact file %s is truncated" % f)
             self.crates[cname] = nb
+        self._canonicalise(factdir)
+
+    def _canonicalise(self, factdir):
+        """One item, one name: other crates see workspace items through re-exports (`parol_runtime::LLKParser::..`),
+        the defining crate through the real module path.  Callee names, named constants and fn items carry the
+        verbose def path from the driver; map them to the defining crate's pretty path (read from *all* fact files
+        of the tree, also those not loaded for this property)."""
+        import marshal
+        side = os.path.join(factdir, "dp2path.marshal")
+        dp2path = None
+        try:
+            with open(side, "rb") as fh:
+                dp2path = marshal.load(fh)
+        except (OSError, ValueError, EOFError, TypeError):
+            dp2path = None
+        if dp2path is None:
+            dp2path = {}
+            for f in sorted(os.listdir(factdir)):
+                if not f.endswith(".jsonl"):
+                    continue
+                for d in _records(os.path.join(factdir, f)):
+                    if d["t"] in ("body", "const") and "dp" in d:
+                        dp2path.setdefault(d["dp"], d["path"])
+            try:
+                tmp = side + ".%d.tmp" % os.getpid()
+                with open(tmp, "wb") as fh:
+                    marshal.dump(dp2path, fh)
+                os.replace(tmp, side)
+            except OSError:
+                pass
+        self.dp2path = dp2path
+
+        def canon_named(x):
+            if isinstance(x, str) and "|" in x:
+                vis, dp = x.rsplit("|", 1)
+                return dp2path.get(dp, vis)
+            return x
+
+        def fix_op(o):
+            if o and o[0] == "k":
+                if o[3]:
+                    o[3] = canon_named(o[3])
+                if o[4]:
+                    o[4] = canon_named(o[4])
+
+        def fix_rv(rv):
+            k = rv[0]
+            if k in ("use", "rep"):
+                fix_op(rv[1])
+            elif k == "cast":
+                fix_op(rv[2])
+            elif k == "bin":
+                fix_op(rv[2])
+                fix_op(rv[3])
+            elif k == "un":
+                fix_op(rv[2])
+            elif k == "agg":
+                for o in rv[4]:
+                    fix_op(o)
+
+        for b in self.bodies:
+            if b.d.get("_canon"):
+                continue
+            b.d["_canon"] = True
+            for blk in b.blocks:
+                for s in blk["s"]:
+                    if s[0] == "a":
+                        fix_rv(s[2])
+                t = blk["t"]
+                if t[0] in ("call", "tailcall"):
+                    cal = t[1]
+                    dk = cal.get("dk")
+                    if dk and dk in dp2path:
+                        cal["p"] = dp2path[dk]
+                    rdk = cal.get("rdk")
+                    if rdk and rdk in dp2path:
+                        cal["r"] = dp2path[rdk]
+                    for o in t[2]:
+                        fix_op(o)
+                elif t[0] in ("switch", "assert"):
+                    fix_op(t[1])
 
     # ---- lookup
     def body(self, path, crate=None):
